@@ -41,8 +41,12 @@ func NewMycatPartitionModShard(shardNum int) *MycatPartitionModShard {
 
 // FindForKey return result of calculated key
 func (m *MycatPartitionModShard) FindForKey(key interface{}) (int, error) {
-	h := hack.Abs(NumValue(key))
-	return int(h % int64(m.ShardNum)), nil
+	// |key| mod ShardNum as Mycat's BigInteger.abs().mod() gives it, without hack.Abs: hack.Abs(math.MinInt64) is negative
+	h := NumValue(key) % int64(m.ShardNum)
+	if h < 0 {
+		h = -h
+	}
+	return int(h), nil
 }
 
 const (
